@@ -47,6 +47,7 @@ var cliCases = map[string]cliCaseFunc{"C20": clisim.C20Case, "C19": clisim.C19Ca
 
 func checkCLI(cfg *propCfg, tier string, seed uint64, scratch string, start time.Time) int {
 	bin := buildCLI(scratch)
+	os.Setenv("VERIF_TIER", tier)
 	buildS := time.Since(start).Seconds()
 	base := clisim.ScratchBase()
 	defer os.RemoveAll(base)
